@@ -80,13 +80,12 @@ CLAIMED["C08"] = (SCHED_TECH,
     SCHED_NOTE + " The forwarding of the ContinueOnError expression by generated code is checked on generated code (C10).", "DESIGN.md §7 C08")
 
 CLAIMED["C14"] = (
-    "Coq proof about an executable model of compileFlow's checks (depth-first cycle search proved sound and complete by induction on fuel with a pigeonhole bound) + differential correspondence with the real cff on generated flows and mutations",
-    "Partial, labelled so. For every flow (any graph, any option order): the model's checks for duplicate Params, output-less tasks/Invoke, duplicate providers, unused "
-    "outputs are proved equivalent to the declarative rules, and the cycle search is proved to report a cycle exactly when the needs-relation has one, whatever its "
-    "length and whether it runs through task or predicate parameters (C14_cycle); C14_sound_partial collects what every accepted flow satisfies. The two checks made by "
-    "the provider walk (no provider / unused input) are modelled and compared, but their equivalence with the declarative rules is not proved yet. Tie: accept/reject, "
-    "diagnostic classes and presence of the output file of the real cff against the model and against the independent boolean rules wf_b, one flow per file; Slice/Map "
-    "element/key/value types against a lattice of assignable and non-assignable pairs in both directions.",
+    "Coq proof about an executable model of compileFlow's checks: check-by-check equivalences, depth-first cycle search sound and complete (fuel + pigeonhole), worklist provider walk (invariant, potential-based termination, forward reachability under acyclicity) + differential correspondence with the real cff on generated flows and mutations",
+    "Full for the model: accepts f = true <-> WellFormed f for every flow (any graph, any option order) (C14_accepts_iff_wellformed): every consumed type has exactly one provider, no dependency cycle through tasks or predicates at any "
+    "distance, every Params value and task output is consumed, outputs empty exactly for Invoke tasks; the provider walk always terminates within its fuel (C14_walk_terminates); the individual checks are equivalent to their declarative "
+    "rules (C14_dup_params, C14_invoke, C14_dup_provider, C14_unused_output, C14_cycle). Types are atoms; Slice/Map assignability is C14_parallel (C14_assign_refuted keeps the repaired defect F2 as witness). Tie: accept/reject, "
+    "diagnostic classes and presence of the output file of the real cff against the model and against the independent boolean rules wf_b, one flow per file; Slice/Map element/key/value types against a lattice of assignable and "
+    "non-assignable pairs in both directions.",
     "Trusted: Coq kernel; extraction + driver; the flow generator (its abstract program is the model's input and the Go text the tool's input); go/types identity and "
     "assignability are Go library code (types are atoms in the model); unsupported signatures are outside the model.", "DESIGN.md §7 C14")
 
@@ -101,7 +100,7 @@ CLAIMED["C02"] = (
     "Results hold the same provider values in every execution where all jobs returned nil (C02_results), a task function is called only after its predicate returned true (C02_predicate_gate). "
     "The denotational reading of the directive (FlowSemModel: each parameter receives what the unique provider of its type returned) is proved to be exactly what the generated jobs do: at its fuel it assigns to every job that runs, "
     "in any execution, an outcome, and that outcome is the job's result, assigned values and call with its arguments (C02_semantics_is_the_generated_code, C02_results_are_the_dataflow; soundness for every fuel, completeness by "
-    "monotonicity and induction over the log order). Every flow the validator model of C14 accepts has unique providers (C02_accepted_flows_qualify). "
+    "monotonicity and induction over the log order). Every flow the validator model of C14 accepts satisfies both hypotheses (unique providers; a source for every consumed type), whatever the decoration of its tasks (C02_accepted_flows_qualify, via the soundness of the provider walk). "
     "Independence of the listing order is proved too: two listings of the same tasks have the same semantics up to the renaming of task indices - every value, the Results, every failure (C02_listing_order_independent). Tie: job graph of every generated function vs jdeps; "
     "calls with argument terms, results, returned error of every execution vs the model; the operational and the denotational model are cross-checked on every case.",
     GEN_NOTE, "DESIGN.md §7 C02")
